@@ -145,6 +145,9 @@ func (t *assocTarget[K]) line(caseID int, o aop) callResult {
 		switch o.op {
 		case "make":
 			as := t.assocs(o.ps)
+			if len(o.ps) == 0 && o.via%4 >= 2 {
+				as = nil // a nil Go array is an empty array
+			}
 			if isMap {
 				class := col.Map[K, int](notation)
 				switch o.via % 3 {
@@ -154,6 +157,9 @@ func (t *assocTarget[K]) line(caseID int, o aop) callResult {
 					t.m = class.MakeFromSequence(col.List[col.AssociationLike[K, int]](notation).MakeFromArray(as))
 				default:
 					gm := map[K]int{}
+					if len(o.ps) == 0 && o.via%6 == 5 {
+						gm = nil // a nil Go map is an empty map: the new Map must still be usable
+					}
 					for _, p := range o.ps {
 						gm[kc.from(p[0])] = p[1]
 					}
@@ -598,8 +604,8 @@ func runC16(tier string, seed int64, out *Out) {
 	for _, a := range lists {
 		for _, b := range lists {
 			n++
-			if n%cstride != 0 {
-				continue
+			if n%cstride != 0 && len(a) != 0 && len(b) != 0 {
+				continue // (pairs with an empty operand are always run: fast paths live there)
 			}
 			caseID++
 			t := &seqTarget[int]{c: intCodec(), kind: "list"}
@@ -630,6 +636,26 @@ func concatLine(out *Out, caseID int, t *seqTarget[int], a, b []int, alias strin
 		j["res"] = nil
 		pure := eqInts(la.AsArray(), a) && eqInts(lb.AsArray(), b)
 		snap := r.AsArray()
+		// in-place writes first (no structural change, so a shared backing array stays shared)
+		if r.GetSize() > 0 {
+			r.SetValue(-1, 95)
+			r.ReverseValues()
+			pure = pure && eqInts(la.AsArray(), a) && eqInts(lb.AsArray(), b)
+			r.ReverseValues()
+			r.SetValue(-1, snap[len(snap)-1])
+		}
+		if la.GetSize() > 0 && alias == "" {
+			la.SetValue(1, 94)
+			pure = pure && eqInts(r.AsArray(), snap)
+			la.SetValue(1, a[0])
+		}
+		if lb.GetSize() > 0 && alias == "" {
+			lb.SetValue(-1, 93)
+			lb.ReverseValues()
+			pure = pure && eqInts(r.AsArray(), snap)
+			lb.ReverseValues()
+			lb.SetValue(-1, b[len(b)-1])
+		}
 		r.AppendValue(99)
 		if r.GetSize() > 1 {
 			r.SetValue(1, 98)
